@@ -176,7 +176,20 @@ Program decode(const Case &c) {
             base.resize(4);
             p.collisions = p.full_collisions = true;
             break;
-        case 5: base = kp.nul; break;
+        case 5:
+            base = kp.nul;
+            if (c.gen2 != 0) {
+                // keys that share one full 32-bit hash although their lengths differ: StringUtils::Hash multiplies by the
+                // position, so long even-length keys made of NULs (after the first unit) all collapse to 0x80000000
+                for (size_t len : {32u, 34u, 36u, 64u}) {
+                    base.push_back(std::string(len, '\0'));
+                }
+                base.push_back("x" + std::string(31, '\0'));
+                base.push_back("x" + std::string(33, '\0'));
+                base.push_back("y" + std::string(31, '\0'));
+                p.collisions = p.full_collisions = true;
+            }
+            break;
         case 6: {
             unsigned n = 3 + rng.below(10);
             for (unsigned i = 0; i < n; ++i) {
